@@ -489,7 +489,7 @@ def gen_streams(rng, tier, seed):
             legal = list(REF[state].keys())
             op = rng.choice(legal)
         else:
-            op = rng.choice(OPS + ['configure2'])
+            op = rng.choice(OPS + ['configure2', 'start_with_unknown', 'suspend_with_unknown'])
         ops.append(op)
         nxt = REF[state].get(op)
         if nxt:
@@ -556,6 +556,26 @@ def run_streams(case):
                     break
                 if (src_state(), sink_state()) != (before_src, before_snk):
                     sim.violation_once('stream-illegal-change', f'stream:refused-configure2-changed-state:from={ref}', f'source {before_src}->{src_state()}, sink {before_snk}->{sink_state()}')
+                    break
+                done_ops += 1
+                continue
+            if op in ('start_with_unknown', 'suspend_with_unknown'):
+                # a Start / Suspend naming the stream's end-point AND an end-point that does not exist: refused, nothing changes
+                if stream is None or ref not in ('OPEN', 'STREAMING'):
+                    continue
+                seids = [remote.seid, 0x3E]
+                st, t = sim.run(client.start(seids) if op.startswith('start') else client.suspend(seids), 60.0)
+                sim.loop.settle(vt_budget=10.0)
+                sim.probe('multi_seid_command_with_an_unknown_seid')
+                if st != 'done':
+                    sim.violation_once('stream-hang', f'stream:{op}-hangs:from={ref}', describe_task(t))
+                    t.cancel()
+                    break
+                if t.exception() is None:
+                    sim.violation_once('stream-illegal', f'stream:{op}-accepted:from={ref}', 'a command naming an unknown end-point was accepted')
+                    break
+                if (src_state(), sink_state()) != (before_src, before_snk):
+                    sim.violation_once('stream-illegal-change', f'stream:refused-{op}-changed-state:from={ref}', f'source {before_src}->{src_state()}, sink {before_snk}->{sink_state()}')
                     break
                 done_ops += 1
                 continue
